@@ -9,6 +9,13 @@ From PahoV Require Import Base.Prelude Codec.StrBytes Codec.Utf8 Codec.VBI Codec
 Lemma in_names_mem n i : In (n, i) (t_names GT) -> memz i (map snd (t_names GT)) = true.
 Proof. intros I. apply memz_in. apply in_map_iff. exists (n, i). split; [reflexivity|assumption]. Qed.
 
+Lemma in_names_b n i :
+  existsb (fun p => zlist_eqb (fst p) n && (snd p =? i)) (t_names GT) = true -> In (n, i) (t_names GT).
+Proof.
+  intros H. apply existsb_exists in H as [[n' i'] [Hin H]]. cbn [fst snd] in H.
+  apply andb_true_iff in H as [H1 H2]. apply zlist_eqb_eq in H1. apply Z.eqb_eq in H2. subst. exact Hin.
+Qed.
+
 Lemma allowed_pts pt i ty pts : 0 <= pt < 128 -> assoc i (t_table GT) = Some (ty, pts) ->
   memz pt pts = spec_allowed pt i.
 Proof.
@@ -157,7 +164,8 @@ Lemma c17_rejects_subid_list_partial pt st name l st' b x :
   setattr GT pt st name (Many l) = Ok st' -> pack GT st' <> Ok b.
 Proof.
   intros Hn Hin Hx HS HP.
-  assert (I : In (bytes_of "Subscription Identifier", 11) (t_names GT)) by (vm_compute; tauto).
+  assert (I : In (bytes_of "Subscription Identifier", 11) (t_names GT)).
+  { apply in_names_b. vm_compute. reflexivity. }
   destruct (tables_ok_row GT _ 11 tables_ok_GT I) as [F1 F2 F3 F4 F5 (ty & pts & w & F6 & F7 & F8)].
   rewrite (setattr_list GT pt st _ 11 name ty pts l tables_ok_GT I Hn F6) in HS.
   destruct (negb (memz pt pts)); [destruct ((- t_npackets GT <=? pt) && (pt <? t_npackets GT)); discriminate|].
@@ -193,23 +201,25 @@ Definition reaches_wire (pt : Z) (name : string) (i : Z) (a : passign) (wire : l
   In (bytes_of name, i) (t_names GT) /\ spec_assign_ok pt i a = false /\
   exists st', setattr GT pt [] (bytes_of name) a = Ok st' /\ pack GT st' = Ok wire.
 
-Ltac wire := split; [vm_compute; tauto|]; split; [vm_compute; reflexivity|]; eexists; split; vm_compute; reflexivity.
+Ltac wire st :=
+  split; [apply in_names_b; vm_compute; reflexivity|]; split; [vm_compute; reflexivity|];
+  exists st; split; vm_compute; reflexivity.
 
 (* F-C17c: SubscriptionIdentifier = [0] in SUBSCRIBE packs 02 0B 00 *)
 Lemma c17_rejects_refuted_c : reaches_wire SUBSCRIBE "Subscription Identifier" 11 (Many [VInt 0]) [2; 11; 0].
-Proof. wire. Qed.
+Proof. wire [(11, Many [VInt 0])]. Qed.
 (* F-C17e: MaximumQoS = 2 in CONNACK packs 02 24 02 *)
 Lemma c17_rejects_refuted_e : reaches_wire CONNACK "Maximum QoS" 36 (One (VInt 2)) [2; 36; 2].
-Proof. wire. Qed.
+Proof. wire [(36, One (VInt 2))]. Qed.
 (* F-C17f: ContentType = "a\0b" in PUBLISH packs 06 03 00 03 61 00 62 *)
 Lemma c17_rejects_refuted_f : reaches_wire PUBLISH "Content Type" 3 (One (VS (SStr [97; 0; 98]))) [6; 3; 0; 3; 97; 0; 98].
-Proof. wire. Qed.
+Proof. wire [(3, One (VS (SStr [97; 0; 98])))]. Qed.
 (* F-C17g: SubscriptionIdentifier = [1, 2] in SUBSCRIBE packs two Subscription Identifiers *)
 Lemma c17_rejects_refuted_g : reaches_wire SUBSCRIBE "Subscription Identifier" 11 (Many [VInt 1; VInt 2]) [4; 11; 1; 11; 2].
-Proof. wire. Qed.
+Proof. wire [(11, Many [VInt 1; VInt 2])]. Qed.
 (* F-C17h: UserProperty = "abc" (a str, not a pair) packs the pair ("a", "b") *)
 Lemma c17_rejects_refuted_h : reaches_wire PUBLISH "User Property" 38 (One (VS (SStr [97; 98; 99]))) [7; 38; 0; 1; 97; 0; 1; 98].
-Proof. wire. Qed.
+Proof. wire [(38, Many [VS (SStr [97; 98; 99])])]. Qed.
 
 Lemma c17_rejects_refuted : ~ c17_rejects_full.
 Proof.
